@@ -138,7 +138,32 @@ class C14(Property):
     def _kwargs(self, s, grid):
         dxs = np.asarray(grid.discretization, float)
         mr = {"cell": float(dxs.max()), "big": 3.0 * float(dxs.max())}.get(s["minimal_radius"], s["minimal_radius"])
-        return dict(threshold=s["threshold"], minimal_radius=mr, refine=s["refine"], refine_args=None if s["refine_args"] is None else dict(s["refine_args"]), modes=s["modes"])
+        kw = dict(threshold=s["threshold"], minimal_radius=mr, refine=s["refine"], refine_args=None if s["refine_args"] is None else dict(s["refine_args"]), modes=s["modes"])
+        # the same settings as numpy scalars (as they come out of array computations) in one case of three
+        if (int(1000 * float(dxs.max())) + int(s["modes"])) % 3 == 0:
+            kw["_numpy_scalars"] = True
+            if not isinstance(kw["threshold"], str):
+                kw["threshold"] = np.float32(kw["threshold"]) if float(np.float32(kw["threshold"])) == kw["threshold"] else np.float64(kw["threshold"])
+            kw["minimal_radius"] = np.float64(kw["minimal_radius"]) if float(kw["minimal_radius"]) != int(kw["minimal_radius"]) else np.int64(int(kw["minimal_radius"]))
+            kw["refine"] = np.bool_(kw["refine"])
+            kw["modes"] = np.int64(kw["modes"])
+            if kw["refine_args"] and "tolerance" in kw["refine_args"]:
+                kw["refine_args"]["tolerance"] = np.float64(kw["refine_args"]["tolerance"])
+        return kw
+
+    @staticmethod
+    def _plain(kw):
+        """the settings for the offline analysis: plain Python values (the representation must not matter)"""
+        out = {}
+        for k, v in kw.items():
+            if k.startswith("_"):
+                continue
+            if isinstance(v, np.generic):
+                v = v.item()
+            elif isinstance(v, dict):
+                v = {kk: (vv.item() if isinstance(vv, np.generic) else vv) for kk, vv in v.items()}
+            out[k] = v
+        return out
 
     def _compare(self, ctx, tracker_data, offline, prefix_model, label):
         n_prev = len(prefix_model)
@@ -206,7 +231,7 @@ class C14(Property):
             tr.finalize()
             if fields:
                 storage.end_writing()
-            off_kw = dict(kw)
+            off_kw = self._plain(kw)
             offline = EmulsionTimeCourse.from_storage(storage, progress=False, **off_kw) if fields else EmulsionTimeCourse()
             self._compare(ctx, tr.data, offline, prefix_model, "direct")
             if existing is not None:
@@ -304,7 +329,7 @@ class C14(Property):
             tr = DropletTracker(spec["interrupts"], filename=path, threshold=kw["threshold"], minimal_radius=kw["minimal_radius"], refine=kw["refine"], refine_args=kw["refine_args"], perturbation_modes=kw["modes"])
             storage = MemoryStorage()
             pde.solve(state, t_range=spec["t_range"], dt=spec["dt"], tracker=[tr, storage.tracker(spec["interrupts"])], backend="numpy", solver="euler")
-            offline = EmulsionTimeCourse.from_storage(storage, progress=False, **kw)
+            offline = EmulsionTimeCourse.from_storage(storage, progress=False, **self._plain(kw))
             self._compare(ctx, tr.data, offline, [], "solver")
             ctx.nontrivial = len(offline.times) >= 2
             if path and os.path.exists(path):
